@@ -601,7 +601,7 @@ Lemma rfc3339_roundtrip_lemma : forall strftime_o strptime_o utc tz al fs t,
               parse_impl strptime_o tz utc rfc3339 txt = OK (Some (t, fs)).
 Proof.
   intros sf sp utc tz al fs t Hutc V Iy Ho Hfs It Hsec.
-  assert (Ho' : -86400 <= al_off al <= 86400) by lia.
+  assert (Ho' : -93599 <= al_off al <= 93599) by lia.
   pose proof (format_lib_only_lemma sf rfc3339 al fs t (mkTM 0 0 0 0 0 0 0 0 0) lib_only_rfc
                 (conj V (conj Iy Ho')) Hfs It) as HF.
   rewrite render_rfc in HF.
